@@ -127,8 +127,68 @@ func c15Sequence(c *sim.Ctx, s []byte) *sim.Violation {
 	return nil
 }
 
+// tinyReader is the plainest possible io.Reader over a few bytes (no events):
+// used by the exhaustive sub-sweeps, where the delivery schedule is not the subject.
+type tinyReader struct {
+	b []byte
+	i int
+}
+
+func (r *tinyReader) Read(p []byte) (int, error) {
+	if r.i >= len(r.b) {
+		return 0, io.EOF
+	}
+	n := copy(p, r.b[r.i:])
+	r.i += n
+	return n, nil
+}
+
+// c15Exhaustive (thorough tier): runs 257..512 walk through ALL 2^28 values
+// (2^20 per run): encoding equals the minimal form, both decoders return the
+// value and its width. Runs 513..768 walk through ALL 2^24 three-byte sequences
+// (first byte = run-513) for decoder agreement. Together with the 1- and 2-byte
+// sweeps of runs 0..256 this enumerates every value and every sequence of up to
+// three bytes; four- and five-byte sequences stay sampled.
+func c15Exhaustive(c *sim.Ctx) *sim.Violation {
+	if c.Run >= 257 && c.Run < 513 {
+		lo := uint32(c.Run-257) << 20
+		var want []byte
+		for v := lo; v < lo+1<<20; v++ {
+			want = ref.AppendVarint(want[:0], v)
+			got := mq.VerifVbintFill(v)
+			if !bytes.Equal(got, want) {
+				return sim.V(fmt.Sprintf("C15/encode/width%d/not-the-minimal-form", len(want)), "value %d encoded as %x, MQTT's minimal form is %x", v, got, want)
+			}
+			uv, uw, uerr := mq.VerifVbintUnmarshal(want)
+			if uerr != nil || uv != v || uw != len(want) {
+				return sim.V(fmt.Sprintf("C15/unmarshal/width%d/wrong-value-or-width", len(want)), "in-memory decoder on %x: value %d width %d err %v", want, uv, uw, uerr)
+			}
+			sv, sn, serr := mq.VerifVbintReadFrom(&tinyReader{b: want})
+			if serr != nil || sv != v || int(sn) != len(want) {
+				return sim.V(fmt.Sprintf("C15/readfrom/width%d/wrong-value-or-advance", len(want)), "streaming decoder on %x: value %d n %d err %v", want, sv, sn, serr)
+			}
+		}
+		c.CountN("sweep.all-2^28-values.values", 1<<20)
+		c.DistinctStr(fmt.Sprintf("values/%d", lo))
+		return nil
+	}
+	first := byte(c.Run - 513)
+	for b := 0; b < 65536; b++ {
+		s := []byte{first, byte(b >> 8), byte(b)}
+		if v := c15Sequence(c.Muted(), s); v != nil {
+			return v
+		}
+	}
+	c.CountN("sweep.all-3-byte-sequences", 65536)
+	c.DistinctStr(fmt.Sprintf("seq3/%d", first))
+	return nil
+}
+
 func runC15(c *sim.Ctx) *sim.Violation {
 	t := c.T
+	if c.Thorough && c.Run >= 257 && c.Run < 769 {
+		return c15Exhaustive(c)
+	}
 	// boundaries in every run
 	for _, v := range c15Bounds {
 		if viol := c15Value(c, v); viol != nil {
